@@ -118,7 +118,7 @@ def build_lineage(ex):
 roundtrip_contract('lineage', 'LineageModel', build_lineage, 'initialised')
 
 
-def build_lineage_full(ex):
+def build_lineage_full(ex, initialise=True):
     """a lineage model with a growth event, a division rule with its splitter and a death event"""
     m = build_lineage(ex)
     P = ex.program
@@ -131,11 +131,24 @@ def build_lineage_full(ex):
     call('create_division_event', ['division', {}, 'massaction', {'k': 0.05, 'species': ''}, vs2])
     call('create_volume_rule', ['linear', {'growth_rate': 0.5}])
     call('create_death_rule', ['species', {'specie': 'A', 'threshold': 50, 'comp': '>'}])
-    call('py_initialize', [])
+    if initialise:
+        call('py_initialize', [])
     return m
 
 
 roundtrip_contract('lineage', 'LineageModel', build_lineage_full, 'with-growth-division-death')
+# the same definition copied while NOT initialised (built and never initialised / edited after the last initialisation): every list that is
+# part of the definition comes back (seed C17-d blanked the rule lists of a not-initialised lineage model)
+roundtrip_contract('lineage', 'LineageModel', lambda ex: build_lineage_full(ex, initialise=False), 'with-growth-division-death:not-initialised')
+
+
+def build_lineage_edited(ex):
+    m = build_lineage_full(ex)
+    ex.call_method(m, ex.program.find_method(m.cls, 'create_volume_rule'), ['linear', {'growth_rate': 0.25}], {})
+    return m
+
+
+roundtrip_contract('lineage', 'LineageModel', build_lineage_edited, 'with-growth-division-death:initialised-then-edited')
 
 
 # n-ary expression nodes: __reduce__ -> restore_binary_term
